@@ -1,6 +1,7 @@
 package rules
 
 import (
+	"go/token"
 	"go/types"
 	"sort"
 
@@ -100,4 +101,93 @@ func initOwners(c *core.Ctx) {
 		ps = append(ps, p.Types)
 	}
 	ssax.IndexFieldOwners(ps)
+}
+
+// errResult returns the SSA value of the error result of call (the last
+// result), or nil.
+func errResult(call ssa.CallInstruction) ssa.Value {
+	cv, ok := call.(*ssa.Call)
+	if !ok {
+		return nil
+	}
+	res := cv.Call.Signature().Results()
+	if res.Len() == 0 {
+		return nil
+	}
+	if res.Len() == 1 {
+		return cv
+	}
+	if refs := cv.Referrers(); refs != nil {
+		for _, r := range *refs {
+			if ex, ok := r.(*ssa.Extract); ok && ex.Index == res.Len()-1 {
+				return ex
+			}
+		}
+	}
+	return nil
+}
+
+// result returns the i'th result value of a call.
+func result(call ssa.CallInstruction, i int) ssa.Value {
+	cv, ok := call.(*ssa.Call)
+	if !ok {
+		return nil
+	}
+	res := cv.Call.Signature().Results()
+	if res.Len() == 1 && i == 0 {
+		return cv
+	}
+	if refs := cv.Referrers(); refs != nil {
+		for _, r := range *refs {
+			if ex, ok := r.(*ssa.Extract); ok && ex.Index == i {
+				return ex
+			}
+		}
+	}
+	return nil
+}
+
+// denotes reports whether v is target, or a load of a local cell / phi that may
+// hold target.
+func denotes(v, target ssa.Value) bool {
+	if target == nil || v == nil {
+		return false
+	}
+	v = ssax.Strip(v)
+	if v == target {
+		return true
+	}
+	for _, o := range ssax.Origins(v, nil, 0) {
+		if o.CallV == target || o.Other == target {
+			return true
+		}
+	}
+	return false
+}
+
+// okEdge reports whether `at` executes only when the error result of call was
+// nil (at is dominated by the err == nil edge of a test of that error).
+func okEdge(at ssa.Instruction, call ssa.CallInstruction) bool {
+	ev := errResult(call)
+	if ev == nil {
+		return false
+	}
+	for _, f := range ssax.FactsAt(at) {
+		if f.Op == token.EQL && ssax.IsNil(f.Y) && denotes(f.X, ev) {
+			return true
+		}
+		if f.Op == token.EQL && ssax.IsNil(f.X) && denotes(f.Y, ev) {
+			return true
+		}
+	}
+	return false
+}
+
+// isNilOrZeroResult reports whether the i'th returned value of ret is the nil
+// constant.
+func isNilResult(ret *ssa.Return, i int) bool {
+	if i >= len(ret.Results) {
+		return false
+	}
+	return ssax.IsNil(ret.Results[i])
 }
